@@ -196,6 +196,33 @@ func hostilePhases(which string) []*fw.Phase {
 			return runHostile(which, hostileCase{Arena: a, Entries: []gen.TarEntry{alpha[idx/(na*na)], alpha[(idx/na)%na], alpha[idx%na]}})
 		},
 	}
+	coop := gen.CooperatingAlphabet()
+	nc := len(coop)
+	coopTriples := &fw.Phase{
+		Name: "exhaustive-triples-of-cooperating-entries", Chroot: true, Exhaustive: true,
+		N: func(string) int { return nc * nc * nc },
+		Run: func(env *fw.Env, idx int) fw.Result {
+			a := arenaVariants[idx%nv]
+			return runHostile(which, hostileCase{Arena: a, Entries: []gen.TarEntry{coop[idx/(nc*nc)], coop[(idx/nc)%nc], coop[idx%nc]}})
+		},
+	}
+	coopRandom := &fw.Phase{
+		Name: "random-sequences-of-cooperating-entries", Chroot: true,
+		N: fw.Fixed(10000, 200000),
+		Run: func(env *fw.Env, idx int) fw.Result {
+			r := env.Rand(idx)
+			n := 3 + r.Intn(5)
+			var es []gen.TarEntry
+			for i := 0; i < n; i++ {
+				if r.Chance(1, 6) {
+					es = append(es, alpha[r.Intn(na)])
+				} else {
+					es = append(es, coop[r.Intn(nc)])
+				}
+			}
+			return runHostile(which, hostileCase{Arena: hostileArena(r, r.Chance(1, 8)), Entries: es})
+		},
+	}
 	random := &fw.Phase{
 		Name: "random-sequences", Chroot: true,
 		N: fw.Fixed(20000, 300000),
@@ -253,7 +280,7 @@ func hostilePhases(which string) []*fw.Phase {
 			return agg
 		},
 	}
-	return []*fw.Phase{singles, pairs, triples, random, links, faults}
+	return []*fw.Phase{singles, pairs, triples, coopTriples, coopRandom, random, links, faults}
 }
 
 func init() {
